@@ -646,6 +646,7 @@ class SyncInterpreter(BaseInterpreter[TContext, TEvent]):
         for state in states_to_enter:
             logger.info("➡️ Entering state: '%s'", state.id)
             self._active_state_nodes.add(state)
+            self._begin_activation(state)
             # 📨 Pass the REAL triggering event through. Synthesising an
             #    `entry.<id>` event here discarded the payload, so an entry
             #    action reading `event.payload` — the normal way to seed state
@@ -784,10 +785,13 @@ class SyncInterpreter(BaseInterpreter[TContext, TEvent]):
                 # 📬 Send the `done.state.*` event for the next processing
                 #    cycle, carrying the final state's `output` as done data.
                 self.send(
-                    DoneEvent(
-                        type=done_event_type,
-                        data=self._resolve_output(final_state),
-                        src=ancestor.id,
+                    self._stamp_activation(
+                        DoneEvent(
+                            type=done_event_type,
+                            data=self._resolve_output(final_state),
+                            src=ancestor.id,
+                        ),
+                        ancestor.id,
                     )
                 )
                 return  # 🛑 Only fire the event for the nearest completed ancestor.
@@ -1398,8 +1402,13 @@ class SyncInterpreter(BaseInterpreter[TContext, TEvent]):
             # 🚀 Execute the synchronous service.
             result = service(self, self.context, invoke_event)
             # ✅ On success, immediately queue a 'done' event with the result.
-            done_event = DoneEvent(
-                f"done.invoke.{invocation.id}", data=result, src=invocation.id
+            done_event = self._stamp_activation(
+                DoneEvent(
+                    f"done.invoke.{invocation.id}",
+                    data=result,
+                    src=invocation.id,
+                ),
+                owner_id,
             )
             self.send(done_event)
             logger.info(
@@ -1416,8 +1425,13 @@ class SyncInterpreter(BaseInterpreter[TContext, TEvent]):
                 e,
                 exc_info=True,
             )
-            error_event = DoneEvent(
-                f"error.platform.{invocation.id}", data=e, src=invocation.id
+            error_event = self._stamp_activation(
+                DoneEvent(
+                    f"error.platform.{invocation.id}",
+                    data=e,
+                    src=invocation.id,
+                ),
+                owner_id,
             )
             # 🚨 Unhandled service failures must be observable, not just
             #    logged. See BaseInterpreter._fail.
